@@ -23,6 +23,9 @@ EXPLANATION = (
     "on the specified ellipse for all parameters (the axis-aligned Arc(rx=, ry=) constructor picks its centre by "
     "orientation tests); bbox/length equality."
 )
+TECHNIQUE = (
+    "static analysis (no execution): segment-sequence extraction from segments() (value numbering, constant loops unrolled, index loops summarised by induction) compared with the SVG 2 chapter 10 equivalent paths; corner decision table by dispatch extraction; save/restore path check"
+)
 ASSUMPTIONS = [
     "SVG 2 chapter 10 equivalent paths transcribed in this module are the oracle.",
     "The quarter-ellipse constructor Arc(start, end, rx=, ry=) and the parametrised Arc(start, end, center, rx=, ry=, rotation=, sweep=) are trusted to produce the arc through their end points (numeric clause).",
